@@ -42,13 +42,16 @@ PROPS["C14"] = {
                   "lengths and every reachable carry state, the SAT solver shows the streaming hasher's transcript equals a "
                   "byte-at-a-time reference transducer; one inductive step covers all chunkings.",
     "level_note": "Bounds: chunk lengths as listed in evidence; hash primitive = injective transcript model; Kani's std model "
-                  "and CBMC are trusted; memchr SIMD paths not exercised.",
+                  "and CBMC are trusted; memchr SIMD paths not exercised. NOT covered: the streaming NormalizedReader (whole-reader "
+                  "harnesses on a reader scaled to a 4-octet buffer, and single cleanup_buffer/fill_buffer steps, all ran out of "
+                  "14-45 GB in CBMC's array post-processing: two replace_newlines passes plus BytesMut appends at symbolic offsets; "
+                  "probes kept unregistered in harness/c14_norm.rs) and inputs above the stated lengths.",
     "inject": [("src/lib.rs", "c14_hasher"), ("src/normalize_lines.rs", "c14_norm"), ("src/packet/literal_data.rs", "c14_lit")],
     "mem_gb": 14,
     "bounds": "hasher: one chunk of L<=4 (quick) / L<=6 (thorough) arbitrary bytes from pre-state in {fresh, "
               "after-CR}, plus two-chunk compositions",
     "outside": "memchr SIMD paths (Kani compiles the portable fallback); inputs longer than the stated bounds",
-    "assumptions": ["hash primitive replaced by an injective transcript recorder (ideal hash)", "c14_reader_*: NormalizedReader's BUF_SIZE scaled from 1024 to 8 in the checked copy (internal buffer 4 octets instead of 512); the edge logic is parametric in BUF_SIZE"],
+    "assumptions": ["hash primitive replaced by an injective transcript recorder (ideal hash)"],
     "harnesses": [
         H("c14_hasher_step_%d" % l, "c14_hasher", "quick" if l <= 4 else "thorough", 600,
           "pre-state x one chunk of %d symbolic bytes x done(): transcript == byte-at-a-time reference" % l,
@@ -63,10 +66,6 @@ PROPS["C14"] = {
         H("c14_replace_%d" % l, "c14_norm", "quick" if l <= 2 else "thorough", 600 if l <= 2 else 1800,
           "replace_newlines(x, CRLF) == reference for every x of length %d" % l,
           ["normalize_lines::replace_newlines"], "L=%d" % l) for l in range(0, 6)
-    ] + [
-        H("c14_reader_3", "c14_norm", "thorough", 1800, "NormalizedReader (internal buffer scaled to 4) on every 3-byte source", NREADER, "N=3"),
-        H("c14_reader_4", "c14_norm", "thorough", 1800, "NormalizedReader (scaled) on every 4-byte source: source ends at the buffer edge", NREADER, "N=4"),
-        H("c14_reader_5", "c14_norm", "thorough", 2400, "NormalizedReader (scaled) on every 5-byte source: CR|LF across the buffer edge", NREADER, "N=5"),
     ] + [
         H("c14_crlf_%d_%d" % ab, "c14_lit", "quick" if sum(ab) <= 4 else "thorough", 600,
           "CrLfCheckReader over chunks of %d+%d symbolic bytes: accepts iff no bare LF, data unchanged" % ab,
@@ -200,16 +199,12 @@ C05_CODEC = [
 SEC_F = ["types::SecretParams::{from_slice,to_writer,write_len,string_to_key_id,has_sha1_checksum}", "types::params::secret::parse_secret_fields", "types::EncryptedSecretParams::{new,to_writer,write_len}"]
 C05_MUT = [
     H("c05_details_write_len", "c05_sigmut", "quick", 900, "SignedKeyDetails with one direct-key signature: write_len == octets written (tag + length + body)", ["composed::SignedKeyDetails::{to_writer,write_len}", "packet::Signature::{to_writer,write_len}", "packet::PacketTrait::{to_writer_with_header,write_len_with_header}"], "creation time symbolic"),
-    H("c08_usage_254", "c08_secret", "quick", 900, "locked secret material, usage 254: octet kept, SHA-1 check selected, identical re-serialisation", SEC_F, "22 symbolic octets"),
-    H("c08_usage_255", "c08_secret", "quick", 900, "usage 255: octet kept, checksum (not SHA-1) selected, identical re-serialisation", SEC_F, "22 symbolic octets"),
-    H("c08_usage_legacy_7", "c08_secret", "thorough", 900, "legacy usage (cipher octet 7)", SEC_F, "22 symbolic octets"),
-    H("c08_usage_253", "c08_secret", "thorough", 900, "usage 253 (AEAD/OCB)", SEC_F, "21 symbolic octets"),
     H("c05_keyflags_setters", "c05_sigmut", "quick", 600, "KeyFlags built through every subset of setters: write_len == octets written, RFC bit positions", ["packet::KeyFlags::{default,set_*,to_writer,write_len}"], "10 symbolic booleans"),
     H("c05_unhashed_push_remove_small", "c05_sigmut", "quick", 900, "Signature::unhashed_subpacket_push/remove with a 1-octet-length subpacket: header length == original", ["packet::Signature::{unhashed_subpacket_push,unhashed_subpacket_insert,unhashed_subpacket_remove}", "packet::Subpacket::write_len"], "original header length 10..70000 symbolic"),
     H("c05_unhashed_push_remove_2octet_len", "c05_sigmut", "quick", 900, "same with a 196-octet subpacket (2-octet subpacket length)", ["packet::Signature::{unhashed_subpacket_push,unhashed_subpacket_insert,unhashed_subpacket_remove}", "packet::Subpacket::write_len"], "original header length symbolic"),
 ]
 PROPS["C05"] = {
-    "inject": [("src/lib.rs", "c05_codec"), ("src/lib.rs", "c17_codec"), ("src/packet/signature/types.rs", "c05_sigmut"), ("src/lib.rs", "c08_secret")],
+    "inject": [("src/lib.rs", "c05_codec"), ("src/lib.rs", "c17_codec"), ("src/packet/signature/types.rs", "c05_sigmut")],
     "mem_gb": 12,
     "level_text": "Bounded model checking of the real parsers/serialisers: for every byte string of the stated lengths the solver "
                   "shows parse/serialise are mutually inverse, write_len equals the octets written and canonical inputs "
@@ -381,10 +376,12 @@ PROPS["C13"] = {
 AEAD_F = ["crypto::aead::StreamEncryptor::{new,read,fill_buffer,create_final_auth_tag}", "crypto::aead::aead_setup_rfc9580", "crypto::aead::ChunkSize::{as_byte_size,try_from}", "util::fill_buffer"]
 AEAD_ASSUME = [FMT_STUBS, "AEAD primitive replaced by a model (identity cipher, tag = chunk-index octets of the nonce || AD length || AD tail) via "
                "kani::stub(AeadAlgorithm::encrypt_in_place); the reference layout calls the same function, so native replay uses real AES-OCB/GCM/EAX",
-               "sha2::sha256::compress256 stubbed to a no-op (HKDF output is an opaque but shared value for implementation and reference)"]
+               "layout harnesses: aead_setup_rfc9580 stubbed (info per RFC, fixed key, zero IV); the real function is checked in c12_aead_setup_info with "
+               "sha2::sha256::compress256 stubbed to a no-op"]
 C12_H = [
     H("c12_aead_enc_%d" % n, "c12_aead", tier, 1200, "SEIPDv2 StreamEncryptor over %d octets (symbolic octets at chunk edges): stream == RFC chunk/tag schedule" % n, AEAD_F, "N=%d, chunk 64" % n)
-    for n, tier in [(0, "quick"), (1, "quick"), (64, "thorough"), (65, "quick"), (70, "thorough"), (128, "thorough")]
+    for n, tier in [(0, "quick"), (1, "quick"), (64, "quick"), (65, "quick"), (70, "thorough"), (128, "thorough")]
+] + [H("c12_aead_setup_info", "c12_aead", "thorough", 2400, "real aead_setup_rfc9580 (HKDF with no-op compression): info = D2 02 cipher aead chunk, key/nonce lengths, zero chunk index", AEAD_F, "AEAD 1..3, chunk octet 0..16")
 ] + [H("c12_chunk_size_octets", "c12_aead", "quick", 300, "chunk size octet 0..255: legal iff <= 16, size = 2^(c+6)", AEAD_F, "all octets")]
 S2K_F = ["types::StringToKey::derive_key (Simple, Salted, IteratedAndSalted arms)"]
 C12_H += [
@@ -476,5 +473,5 @@ PROPS["C06"] = {
                                "c11_sign_cert_v4_positive", "c11_verify_cert_v4_positive"},
                        {"c11_sign_data_v6_2": "thorough", "c11_sign_primary_binding_v6": "thorough", "c11_verify_primary_binding_v4": "thorough",
                         "c11_sign_subkey_binding_v4": "thorough", "c11_verify_subkey_binding_v6": "thorough"})
-                 + _pick("C14", {"c14_hasher_step_3", "c14_hasher_two_1_2", "c14_replace_2", "c14_reader_4", "c14_reader_5"}),
+                 + _pick("C14", {"c14_hasher_step_3", "c14_hasher_two_1_2", "c14_replace_2"}),
 }
